@@ -32,6 +32,12 @@ PASS_CTOR_PREFIX = ("draco::IndexType<", "draco::VectorD<", "std::array<",
                     "std::pair<")
 
 
+# sink kinds whose obligations are not chained through (object-insensitive)
+# fields: the destination capacity of a write is the business of the function
+# that owns both the length and the destination
+NO_FIELD_SUMMARY = {"WRITELEN"}
+
+
 def is_src(l):
     return l[0] == "src"
 
@@ -820,6 +826,8 @@ class Engine:
                     continue
                 for l in sk.labels:
                     if l[0] not in ("param", "field"):
+                        continue
+                    if l[0] == "field" and sk.kind in NO_FIELD_SUMMARY:
                         continue
                     if ft.bounded(l, sk.block, sk.kinds):
                         continue
